@@ -153,6 +153,15 @@ def callArgs (cmd : String) : P (Option String) := do
         | .ok p => match styleRealise p with
           | .ok () => "ok"
           | .error e => "late-" ++ showErr e))
+  | "setterform" => do
+      -- what the analysis of the regenerated statement tree says about a rejected assignment through this setter
+      let c ← tok
+      let attrName ← tok
+      match Setters.setters.find? (fun st => st.cls == c && st.attr == attrName) with
+      | Option.none => throw s!"no regenerated setter {c}.{attrName}"
+      | some st =>
+        pure (some (if SetterForm.vtaForm st then "all-or-nothing validate-then-assign"
+          else if SetterForm.form st then "all-or-nothing assign-under-restore" else "may-change"))
   | "missing" => do
       let c ← tok
       let dn ← flag
